@@ -307,7 +307,9 @@ impl Env {
             self.ev(json!({"ev":"panic","msg":p}));
         }
         let ids: Vec<i64> = self.conns.keys().copied().collect();
-        for c in ids {
+        // what the library wrote since the last scan, on all connections, in the order the bytes were accepted
+        let mut found: Vec<(u64, Value)> = vec![];
+        for c in ids.iter().copied() {
             let (tap, scanned) = {
                 let k = &self.conns[&c];
                 (k.from_lib.tap_from(k.scanned), k.scanned)
@@ -321,22 +323,31 @@ impl Env {
                         rc::WItem::Command(b) => b.len() + if b.len() > 255 { 9 } else { 2 },
                         rc::WItem::Message(m) => m.iter().map(|f| f.len() + if f.len() > 255 { 9 } else { 2 }).sum(),
                     };
+                    let clock = self.conns[&c].from_lib.clock_at(off);
                     match it {
-                        rc::WItem::Greeting(_) => self.ev(json!({"ev":"wire","c":c,"k":"greeting"})),
-                        rc::WItem::Command(b) => self.ev(json!({"ev":"wire","c":c,"k":"cmd","b":rc::hex(b)})),
+                        rc::WItem::Greeting(_) => found.push((clock, json!({"ev":"wire","c":c,"k":"greeting"}))),
+                        rc::WItem::Command(b) => found.push((clock, json!({"ev":"wire","c":c,"k":"cmd","b":rc::hex(b)}))),
                         rc::WItem::Message(m) => {
-                            self.last_wire_conn = Some(c);
                             let n: usize = m.iter().map(|f| f.len() + if f.len() > 255 { 9 } else { 2 }).sum();
                             let mut e = json!({"ev":"wire","c":c,"k":"msg","m":rc::mdesc(m),"n":n,"off":off});
                             if m.len() == 1 && m[0].len() <= 16 && !m[0].is_empty() {
                                 e["f0"] = json!(m[0]);
                             }
-                            self.ev(e)
+                            found.push((clock, e))
                         }
                     }
                 }
                 self.conns.get_mut(&c).unwrap().scanned = scanned + p.consumed;
             }
+        }
+        found.sort_by_key(|x| x.0);
+        for (_, e) in found {
+            if e["k"] == "msg" {
+                self.last_wire_conn = e["c"].as_i64();
+            }
+            self.ev(e);
+        }
+        for c in ids {
             let (rd, wd, logged) = {
                 let k = &self.conns[&c];
                 (k.to_lib.rdropped(), k.from_lib.wdropped(), k.rel_logged)
@@ -821,6 +832,142 @@ pub async fn run_scenario(sc: &Value) -> Vec<Value> {
     gate().set_hold(None);
     env.attaching.clear(); // abandoned handshakes are dropped before the socket
     drop(sock);
+    sim::settle().await;
+    env.scan();
+    env.ev(json!({"ev":"end"}));
+    std::mem::take(&mut env.out)
+}
+
+// ---------------------------------------------------------------------------------------------
+// proxy scenarios (C15): a real proxy(ROUTER, DEALER, capture) future polled by hand; scripted clients on the
+// frontend, scripted workers on the backend, a scripted sink on the capture socket
+
+pub async fn run_proxy_scenario(sc: &Value) -> Vec<Value> {
+    let mut front = RouterSocket::new();
+    let mut back = DealerSocket::new();
+    if sc.get("prepoll").and_then(|v| v.as_bool()).unwrap_or(false) {
+        // the application tried recv on both sockets from another task and gave up, before handing them to the proxy
+        let other = CountWaker::new();
+        {
+            let mut f = front.recv();
+            let _ = poll_catch(&mut f, &other);
+        }
+        {
+            let mut f = back.recv();
+            let _ = poll_catch(&mut f, &other);
+        }
+    }
+    let cap_kind = sc.get("capture").and_then(|v| v.as_str()).unwrap_or("PUSH").to_string();
+    let (cap_backend, cap): (Option<Arc<dyn MultiPeerBackend>>, Option<Box<dyn CaptureSocket>>) = match cap_kind.as_str() {
+        "PUSH" => {
+            let s = PushSocket::new();
+            (Some(s.backend()), Some(Box::new(s)))
+        }
+        "PUB" => {
+            let s = PubSocket::new();
+            (Some(s.backend()), Some(Box::new(s)))
+        }
+        "DEALER" => {
+            let s = DealerSocket::new();
+            (Some(s.backend()), Some(Box::new(s)))
+        }
+        _ => (None, None),
+    };
+    let fb = front.backend();
+    let bb = back.backend();
+    let mut env = Env::new(fb.clone());
+    gate().set_hold(None);
+    take_panics();
+    env.ev(json!({"ev":"reset","scen":sc.get("scen").cloned().unwrap_or(json!(0)),"sock":"PROXY","capture":cap_kind}));
+    let ops: Vec<Value> = sc["ops"].as_array().cloned().unwrap_or_default();
+    // attach phase ops may appear anywhere; the proxy future is created up front
+    let mut fut: Pin<Box<dyn Future<Output = ZmqResult<()>>>> = Box::pin(zeromq::proxy(front, back, cap));
+    let w = CountWaker::new();
+    let mut polls = 0usize;
+    let mut finished = false;
+    let mut seen_wakes = usize::MAX; // wake count at the last poll; MAX = never polled
+    for op in &ops {
+        let name = op["op"].as_str().unwrap_or("");
+        match name {
+            "attach" => {
+                let side = op.get("side").and_then(|v| v.as_str()).unwrap_or("front");
+                env.backend = match side {
+                    "back" => bb.clone(),
+                    "cap" => match &cap_backend {
+                        Some(b) => b.clone(),
+                        None => continue,
+                    },
+                    _ => fb.clone(),
+                };
+                let c = op.get("c").and_then(|v| v.as_i64()).unwrap_or(0);
+                env.ev(json!({"ev":"side","c":c,"side":side}));
+                env.env_op(op).await;
+            }
+            "poll" | "drive" => {
+                if finished {
+                    continue;
+                }
+                // executor semantics: a parked future is polled again only after its waker fired
+                if seen_wakes != usize::MAX && w.count() == seen_wakes {
+                    env.ev(json!({"ev":"proxy_pending","polls":polls,"not_woken":true}));
+                    continue;
+                }
+                seen_wakes = w.count();
+                let r = if name == "poll" {
+                    polls += 1;
+                    match poll_catch(&mut fut, &w) {
+                        Err(m) => Driven::Panicked(m),
+                        Ok(Poll::Ready(x)) => Driven::Done(x),
+                        Ok(Poll::Pending) => {
+                            sim::settle().await;
+                            Driven::Stalled
+                        }
+                    }
+                } else {
+                    let r = drive_catch(&mut fut, &w, 10_000, &mut polls).await;
+                    seen_wakes = w.count();
+                    r
+                };
+                env.scan();
+                match r {
+                    Driven::Done(x) => {
+                        finished = true;
+                        let e = x.err().map(|e| errkind(&e).0);
+                        env.ev(json!({"ev":"proxy_ended","err":e,"polls":polls}));
+                    }
+                    Driven::Panicked(m) => {
+                        finished = true;
+                        take_panics();
+                        env.ev(json!({"ev":"panic","where":"proxy","msg":m}));
+                    }
+                    Driven::Stalled => env.ev(json!({"ev":"proxy_pending","polls":polls})),
+                }
+            }
+            "quiescent" => {
+                sim::settle().await;
+                if !finished && (seen_wakes == usize::MAX || w.count() > seen_wakes) {
+                    let r = drive_catch(&mut fut, &w, 10_000, &mut polls).await;
+                    seen_wakes = w.count();
+                    if let Driven::Done(x) = r {
+                        finished = true;
+                        let e = x.err().map(|e| errkind(&e).0);
+                        env.ev(json!({"ev":"proxy_ended","err":e,"polls":polls}));
+                    }
+                }
+                sim::settle().await;
+                env.scan();
+                let parts = env.partials();
+                env.ev(json!({"ev":"quiescent","pending":"proxy","partials":parts,"final":op.get("final").and_then(|v| v.as_bool()).unwrap_or(false)}));
+            }
+            _ => {
+                if !env.env_op(op).await {
+                    env.ev(json!({"ev":"harness_error","what":format!("unknown op {}", name)}));
+                }
+            }
+        }
+    }
+    env.attaching.clear();
+    drop(fut);
     sim::settle().await;
     env.scan();
     env.ev(json!({"ev":"end"}));
